@@ -703,7 +703,7 @@ theorem C15_tls_callbacks_complete (v : View) (t : Ref) :
       | none => exact (C15_tls_callbacks v t s hat).2 hspec
       | some l =>
         obtain ⟨g1, g2, g3, _⟩ := key l hspec
-        exact (C05_derva_slice_s_complete v (.va (tlsCallBacks v t)) v.fmt.ptrSize v.fmt.ptrSize 0 hps s hat).1
+        exact (C05_derva_slice_s_determined v (.va (tlsCallBacks v t)) v.fmt.ptrSize v.fmt.ptrSize 0 hps s hat).1
           l.length g1 g2 g3
     · obtain ⟨g1, _, _, g4⟩ := key l hl
       rw [Nat.succ_mul] at g1
